@@ -11,7 +11,7 @@
 //!       replays WakerTracker.tla behaviours into the real WakerTracker
 
 use metrique_writer::sink::BackgroundQueueBuilder;
-use metrique_writer::{AnyEntrySink, BoxEntrySink, EntrySink};
+use metrique_writer::{AnyEntrySink, BoxEntry, BoxEntrySink, EntrySink};
 use serde::Deserialize;
 use serde_json::{Value, json};
 use std::collections::HashMap;
@@ -33,6 +33,15 @@ struct Producer {
     n: u64,
     #[serde(default)]
     pace_us: u64,
+    /// C04: request a flush right after every append and wait for it (append / flush ping-pong);
+    /// before each append wait a pseudo-random 0..jitter_us
+    #[serde(default)]
+    flush_each: bool,
+    #[serde(default)]
+    jitter_us: u64,
+    /// with flush_each: wait a pseudo-random 0..flush_delay_us between the append and the request
+    #[serde(default)]
+    flush_delay_us: u64,
 }
 
 #[derive(Deserialize, Clone, Debug)]
@@ -139,6 +148,43 @@ struct Scenario {
     /// C05: (forget) a FlushWait is created and kept, never polled, while the last handle is dropped
     #[serde(default)]
     hold_unpolled_flush: bool,
+    /// C09: `shutdown_timeout` is the LAST builder call (after capacity / recorder), not the first
+    #[serde(default)]
+    st_last: bool,
+    /// C09 bulk runs (tens of thousands of entries, one producer): appends are logged as
+    /// `AppBulk{p,a,b}`, hand-offs as `NextRange{a,b}` (QueueBulkTrace.tla)
+    #[serde(default)]
+    bulk: bool,
+    /// C09: the writer is stalled; in each of `phases` phases (separated by `quiet_ms` without any
+    /// overflow, so that the once-per-second overflow log is due again) `threads` producers released
+    /// together append `per` entries each into the full queue
+    #[serde(default)]
+    overflow_phases: Option<OverflowPhases>,
+    /// C04 (bounded progress): once a flush is requested it completes before the writer has handed
+    /// over this many further entries (0 = not checked); derived by the generator from capacity,
+    /// flush interval and the per-entry stream delay
+    #[serde(default)]
+    lbound: u64,
+    /// C05: AppendOnDrop guards taken from the queue handle before the end phase:
+    /// 1 = into_entry (no append), 2 = forget (no append), 3 = dropped (appends)
+    #[serde(default)]
+    aod: Vec<u8>,
+    /// fixed delay (µs) at named verification points for the whole scenario
+    #[serde(default)]
+    point_delay: HashMap<String, u64>,
+}
+
+#[derive(Deserialize, Clone, Debug)]
+struct OverflowPhases {
+    phases: u64,
+    quiet_ms: u64,
+    threads: u64,
+    per: u64,
+    /// > 0: every thread appends continuously for this long instead of `per` entries (crossing at
+    /// least one whole-second boundary of the overflow log's rate limiter); the appends are logged
+    /// as one `AppMany{p,a,b}` interval per thread
+    #[serde(default)]
+    hammer_ms: u64,
 }
 
 #[derive(Deserialize, Clone, Debug)]
@@ -247,6 +293,7 @@ fn timed_append_ser(q: &Q, p: i64, e: u64, serialize: bool) {
 }
 
 static COUNT_ONLY: AtomicBool = AtomicBool::new(false);
+static BULK: AtomicBool = AtomicBool::new(false);
 /// `bq run --global-recorder 1`: a DebuggingRecorder is installed as the process-global metrics
 /// recorder and queues report through `metrics_recorder_global` under their own `sink` label
 static GLOBAL_SNAP: std::sync::OnceLock<metrics_util_020::debugging::Snapshotter> = std::sync::OnceLock::new();
@@ -255,6 +302,16 @@ static GLOBAL_SNAP: std::sync::OnceLock<metrics_util_020::debugging::Snapshotter
 static SUBSCRIBER: AtomicBool = AtomicBool::new(false);
 
 fn timed_append(q: &Q, p: i64, e: u64) {
+    if BULK.load(Ordering::Relaxed) {
+        // logged by the caller as AppBulk ranges
+        let t = Instant::now();
+        if util::catch(|| q.append(NumEntry(e))).is_err() {
+            trace::evi("Panic", &[("p", p), ("e", e as i64)]);
+        } else if t.elapsed() > Duration::from_secs(5) {
+            trace::evi("AppendBlocked", &[("p", p), ("e", e as i64)]);
+        }
+        return;
+    }
     if !COUNT_ONLY.load(Ordering::Relaxed) {
         trace::evi("AppStart", &[("p", p), ("e", e as i64)]);
     }
@@ -333,6 +390,57 @@ fn watched_drop_how(handle: metrique_writer::sink::BackgroundQueueJoinHandle, ct
     } else {
         let _ = t.join();
     }
+}
+
+/// C09: several producers overflow the (stalled) full queue at the same instant, in phases that
+/// are at least a second apart. Returns false when some append did not return within its budget.
+fn run_overflow_phases(op: &OverflowPhases, q: &Q) -> bool {
+    let mut e = 300_000u64;
+    for ph in 0..op.phases {
+        std::thread::sleep(Duration::from_millis(op.quiet_ms));
+        let go = Arc::new(AtomicBool::new(false));
+        let done = Arc::new((Mutex::new(0u64), Condvar::new()));
+        for t in 0..op.threads {
+            let (q, go, done) = (q.clone(), go.clone(), done.clone());
+            let base = if op.hammer_ms > 0 { 50_000_000 * (1 + ph * op.threads + t) } else { e + t * op.per };
+            let per = op.per;
+            let hammer = op.hammer_ms;
+            std::thread::spawn(move || {
+                while !go.load(Ordering::Acquire) {
+                    std::hint::spin_loop();
+                }
+                if hammer > 0 {
+                    let t0 = Instant::now();
+                    let mut i = 0u64;
+                    while i < 49_000_000 {
+                        q.append(NumEntry(base + i));
+                        i += 1;
+                        if i % 64 == 0 && t0.elapsed() >= Duration::from_millis(hammer) {
+                            break;
+                        }
+                    }
+                    trace::evi("AppMany", &[("p", 20 + t as i64), ("a", base as i64), ("b", (base + i - 1) as i64)]);
+                } else {
+                    for i in 0..per {
+                        timed_append(&q, 20 + t as i64, base + i);
+                    }
+                }
+                drop(q);
+                *done.0.lock().unwrap() += 1;
+                done.1.notify_all();
+            });
+        }
+        e += op.threads * op.per;
+        std::thread::sleep(Duration::from_millis(5));
+        go.store(true, Ordering::Release);
+        let g = done.0.lock().unwrap();
+        let (g, _) = done.1.wait_timeout_while(g, Duration::from_millis(8000 + op.hammer_ms), |d| *d < op.threads).unwrap();
+        if *g < op.threads {
+            trace::evi("AppendBlocked", &[("p", 20), ("e", ph as i64)]);
+            return false;
+        }
+    }
+    true
 }
 
 /// C09 pair rounds: two producers race for the last free slot of a stalled queue.
@@ -484,7 +592,7 @@ fn run_scenario(sc: &Scenario) {
     let nprod = sc.producers.len();
     trace::set_epoch(sc.id);
     trace::ev(json!({"ev":"Reset","cap":sc.cap as i64,"sinks":(nprod+1) as i64,"scenario":sc.id as i64,
-                     "sub": if SUBSCRIBER.load(Ordering::Relaxed) {1} else {0}}));
+                     "sub": if SUBSCRIBER.load(Ordering::Relaxed) {1} else {0}, "lbound": sc.lbound as i64}));
     let ctl = StreamCtl::new();
     for (k, v) in &sc.results {
         ctl.script(k.parse().unwrap(), Res::parse(v));
@@ -496,17 +604,23 @@ fn run_scenario(sc: &Scenario) {
     ctl.slow_flush(sc.flush_slow_us);
     ctl.flush_errors(sc.flush_err);
     COUNT_ONLY.store(sc.count_only, Ordering::Relaxed);
+    BULK.store(sc.bulk, Ordering::Relaxed);
+    ctl.bulk(sc.bulk);
     let stall_id = sc.stall.as_ref().map(|s| 10000 + s.k);
     if let Some(id) = stall_id {
         ctl.gate(id);
     }
+    ctrl.clear_point_delays();
     if sc.permille > 0 {
         ctrl.begin_perturb(sc.seed, sc.permille, sc.max_us, false);
     } else {
         ctrl.free_run();
     }
+    for (name, us) in &sc.point_delay {
+        ctrl.set_point_delay(name, *us);
+    }
     let mut builder = BackgroundQueueBuilder::new();
-    if sc.shutdown_timeout_ms > 0 {
+    if sc.shutdown_timeout_ms > 0 && !sc.st_last {
         builder = builder.shutdown_timeout(Duration::from_millis(sc.shutdown_timeout_ms));
     }
     let mut builder = builder
@@ -529,6 +643,11 @@ fn run_scenario(sc: &Scenario) {
     } else {
         None
     };
+    if sc.st_last {
+        // the order of builder calls must not matter: here the shutdown timeout comes last
+        let ms = if sc.shutdown_timeout_ms > 0 { sc.shutdown_timeout_ms } else { 30_000 };
+        builder = builder.shutdown_timeout(Duration::from_millis(ms));
+    }
     SINK_FILTER.with(|f| *f.borrow_mut() = if GLOBAL_SNAP.get().is_some() { Some(sink_name.clone()) } else { None });
     let (q, handle) = if sc.boxed {
         let (q, h) = builder.build_boxed(ctl.stream());
@@ -542,9 +661,13 @@ fn run_scenario(sc: &Scenario) {
     let stalled = Arc::new((Mutex::new(false), Condvar::new()));
     let producers_done = Arc::new((Mutex::new(0usize), Condvar::new()));
     let mut threads = Vec::new();
+    let fcount = Arc::new(std::sync::atomic::AtomicI64::new(0));
     for (pi, p) in sc.producers.iter().enumerate() {
         let pid = (pi + 1) as i64;
         let q = q.clone();
+        let fcount = fcount.clone();
+        let bulk = sc.bulk;
+        let seed = sc.seed ^ sc.id;
         let p = p.clone();
         let start = start.clone();
         let stall = sc.stall.clone();
@@ -553,19 +676,51 @@ fn run_scenario(sc: &Scenario) {
         let serialize = sc.serialize;
         threads.push(std::thread::spawn(move || {
             start.wait();
+            let mut bulk_from = 1u64;
+            let mut x = seed.wrapping_mul(0x9E37_79B9_7F4A_7C15) | 1;
             for i in 1..=p.n {
                 if let Some(s) = &stall {
                     // everything after producer 1's k-th entry waits until the writer is stalled
                     let wait = if pid == 1 { i > s.k } else { true };
                     if wait {
+                        if bulk && i > bulk_from && !*stalled.0.lock().unwrap() {
+                            trace::evi("AppBulk", &[("p", pid), ("a", (pid as u64 * 10000 + bulk_from) as i64), ("b", (pid as u64 * 10000 + i - 1) as i64)]);
+                            bulk_from = i;
+                        }
                         let g = stalled.0.lock().unwrap();
                         let _g = stalled.1.wait_while(g, |s| !*s).unwrap();
                     }
                 }
+                if p.jitter_us > 0 {
+                    x ^= x << 13;
+                    x ^= x >> 7;
+                    x ^= x << 17;
+                    let t0 = Instant::now();
+                    let d = Duration::from_micros(x % p.jitter_us);
+                    while t0.elapsed() < d {
+                        std::hint::spin_loop();
+                    }
+                }
                 timed_append_ser(&q, pid, pid as u64 * 10000 + i, serialize);
+                if p.flush_each {
+                    if p.flush_delay_us > 0 {
+                        x ^= x << 13;
+                        x ^= x >> 7;
+                        x ^= x << 17;
+                        let t0 = Instant::now();
+                        let d = Duration::from_micros(x % p.flush_delay_us);
+                        while t0.elapsed() < d {
+                            std::hint::spin_loop();
+                        }
+                    }
+                    do_flush(&q, fcount.fetch_add(1, Ordering::SeqCst) + 1);
+                }
                 if p.pace_us > 0 {
                     std::thread::sleep(Duration::from_micros(p.pace_us));
                 }
+            }
+            if bulk && p.n >= bulk_from {
+                trace::evi("AppBulk", &[("p", pid), ("a", (pid as u64 * 10000 + bulk_from) as i64), ("b", (pid as u64 * 10000 + p.n) as i64)]);
             }
             drop(q);
             trace::evi("SinkDrop", &[("p", pid)]);
@@ -573,7 +728,6 @@ fn run_scenario(sc: &Scenario) {
             done.1.notify_all();
         }));
     }
-    let fcount = Arc::new(std::sync::atomic::AtomicI64::new(0));
     for fl in sc.flushers.iter() {
         let q = q.clone();
         let fl = fl.clone();
@@ -680,9 +834,52 @@ fn run_scenario(sc: &Scenario) {
             .wait_timeout_while(g, Duration::from_secs(20), |d| *d < nprod)
             .unwrap();
         if *g < nprod {
+            // an append that does not return: no action of the specification consumes this event.
+            // The blocked threads are abandoned (they may never return); what they log later is
+            // outside every scenario.
             trace::evi("AppendBlocked", &[("p", 0), ("e", 0)]);
             ctl.open_all();
+            drop(g);
+            std::mem::forget(handle);
+            ctrl.free_run();
+            return;
         }
+    }
+    if let Some(op) = &sc.overflow_phases {
+        if !run_overflow_phases(op, &q) {
+            ctl.open_all();
+            std::mem::forget(handle);
+            ctrl.free_run();
+            return;
+        }
+    }
+    // C05: AppendOnDrop guards are queue handles too while they live
+    for (i, mode) in sc.aod.iter().enumerate() {
+        let e = 60000 + i as u64 + 1;
+        trace::evi("SinkClone", &[]);
+        match (&q, *mode) {
+            (Q::Typed(tq), 1) => {
+                let _ = tq.append_on_drop(NumEntry(e)).into_entry();
+            }
+            (Q::Typed(tq), 2) => tq.append_on_drop(NumEntry(e)).forget(),
+            (Q::Typed(tq), _) => {
+                let g = tq.append_on_drop(NumEntry(e));
+                trace::evi("AppStart", &[("p", 6), ("e", e as i64)]);
+                drop(g);
+                trace::evi("AppEnd", &[("p", 6), ("e", e as i64)]);
+            }
+            (Q::Boxed(bq), 1) => {
+                let _ = bq.append_on_drop(BoxEntry::new(NumEntry(e))).into_entry();
+            }
+            (Q::Boxed(bq), 2) => bq.append_on_drop(BoxEntry::new(NumEntry(e))).forget(),
+            (Q::Boxed(bq), _) => {
+                let g = bq.append_on_drop(BoxEntry::new(NumEntry(e)));
+                trace::evi("AppStart", &[("p", 6), ("e", e as i64)]);
+                drop(g);
+                trace::evi("AppEnd", &[("p", 6), ("e", e as i64)]);
+            }
+        }
+        trace::evi("SinkDrop", &[("p", 6)]);
     }
     let mut storm: Vec<(i64, metrique_writer::sink::FlushWait, Arc<FlushWaker>)> = Vec::new();
     for i in 0..sc.flush_storm {
@@ -856,6 +1053,14 @@ fn cmd_run(a: &HashMap<String, String>) {
         tracing_subscriber::fmt()
             .with_writer(std::io::sink)
             .with_max_level(tracing::Level::ERROR)
+            .init();
+        SUBSCRIBER.store(true, Ordering::Relaxed);
+    }
+    if util::arg_u64(a, "subscriber", 0) == 2 {
+        // a subscriber IS installed, but it filters every event out
+        tracing_subscriber::fmt()
+            .with_writer(std::io::sink)
+            .with_max_level(tracing::level_filters::LevelFilter::OFF)
             .init();
         SUBSCRIBER.store(true, Ordering::Relaxed);
     }
